@@ -18,12 +18,22 @@ Definition i_msg (c pf : N) (docs : list N) (types : list str) (ty : str) : str 
 Fixpoint toks_of (tb : list (N * list etok)) (e : N) : list etok :=
   match tb with [] => [] | (k, v) :: r => if k =? e then v else toks_of r e end.
 
-Definition i_step (tb : list (N * list etok)) := step (fun e : N => e) (toks_of tb) i_dec_sem [] i_sem i_msg.
-Definition i_run (tb : list (N * list etok)) := run (fun e : N => e) (toks_of tb) i_dec_sem [] i_sem i_msg.
+(* texts on which decoding ends in an error *)
+Definition i_fails (ft : list N) (f : fmt) (d : N) : bool := existsb (N.eqb d) ft.
+
+(* expressions that do not parse: the value is [expr; 254] *)
+Definition i_pfails (pt : list N) (e : N) : bool := existsb (N.eqb e) pt.
+Definition i_perr (e : N) : list N := [e; 254].
+Definition i_pmsg (e : N) : str := [].
+
+Definition i_step (tb : list (N * list etok)) (pt ft : list N) :=
+  step (fun e : N => e) (i_pfails pt) i_perr i_pmsg (toks_of tb) i_dec_sem [] (i_fails ft) i_sem i_msg.
+Definition i_run (tb : list (N * list etok)) (pt ft : list N) :=
+  run (fun e : N => e) (i_pfails pt) i_perr i_pmsg (toks_of tb) i_dec_sem [] (i_fails ft) i_sem i_msg.
 
 (* per evaluation: expr, prefs, then the decoded-stream description (empty = EOF), 255, the Type string *)
-Definition run_history (fixinit : bool) (tb : list (N * list etok)) (h : list (request N N)) : list (list N) :=
-  List.map (fun o : list N * str => fst o ++ 255 :: snd o) (snd (i_run tb fixinit (G0 0) h)).
+Definition run_history (fixinit : bool) (tb : list (N * list etok)) (pt ft : list N) (h : list (request N N)) : list (list N) :=
+  List.map (fun o : list N * str => fst o ++ 255 :: snd o) (snd (i_run tb pt ft fixinit (G0 0) h)).
 
 Definition sfx_ne : str := [95; 78; 79; 95; 69; 77; 80; 84; 89].       (* _NO_EMPTY *)
 Definition sfx_nu : str := [95; 78; 79; 95; 85; 78; 83; 69; 84].       (* _NO_UNSET *)
